@@ -152,6 +152,57 @@ func TestVerifC07Amf0(t *testing.T) {
 		one("amf0.Null", func() Amf0 { return NewNull() }),
 		one("amf0.Undefined", func() Amf0 { return NewUndefined() }),
 		one("amf0.objectEOF", func() Amf0 { return &objectEOF{} }),
+		// after-error reuse of one container object, also from two goroutines
+		{name: "amf0.reuse", gen: func(r *vRng) []byte {
+			t := r.intn(3)
+			mk := func(r *vRng) []byte {
+				for {
+					v := vC07AmfValue(r, r.rng(1, 4), nil)
+					if len(v) > 0 && v[0] == []byte{3, 8, 10}[t] {
+						return v
+					}
+				}
+			}
+			return append([]byte{byte(t)}, vC07Reuse(mk)(r)...)
+		}, run: func(b []byte) bool {
+			if len(b) < 1 {
+				return true
+			}
+			var a Amf0
+			var base *objectBase
+			switch b[0] % 3 {
+			case 0:
+				o := NewObject()
+				a, base = o, &o.objectBase
+			case 1:
+				o := NewEcmaArray()
+				a, base = o, &o.objectBase
+			default:
+				o := NewStrictArray()
+				a, base = o, &o.objectBase
+			}
+			p1, p2 := vC07Split2(b[1:])
+			e1 := a.UnmarshalBinary(p1)
+			// the same receiver, used again -- concurrently from a second goroutine as well
+			done := make(chan bool, 1)
+			go func() {
+				_ = a.Size()
+				_ = base.Get("a")
+				done <- true
+			}()
+			e2 := a.UnmarshalBinary(p2)
+			_ = a.Size()
+			_ = base.Get("a")
+			base.Set("k", NewNumber(1))
+			_, e3 := a.MarshalBinary()
+			<-done
+			// and every value that was stored in it
+			for _, pr := range base.properties {
+				_ = pr.value.Size()
+				_, _ = pr.value.MarshalBinary()
+			}
+			return e1 != nil && e2 != nil && e3 != nil
+		}},
 		{name: "amf0.utf8", gen: func(r *vRng) []byte {
 			n := r.pickInt(0, 1, 5, 300)
 			return append([]byte{byte(n >> 8), byte(n)}, r.bytes(n)...)
@@ -186,7 +237,7 @@ func TestVerifC07Amf0(t *testing.T) {
 		}},
 	}
 	fams := []*vC07Fam{
-		{name: "amf0-nested-objects", dec: "amf0.any", build: vC07AmfNest, key: "amf0-quadratic-nesting", cost: "amf0.any"},
+		{name: "amf0-nested-objects", dec: "amf0.any", build: vC07AmfNest, key: "amf0-quadratic-nesting", cost: "amf0.any", costMax: 32768},
 		{name: "amf0-flat-object", dec: "amf0.any", build: vC07AmfFlat, cost: "amf0.any"},
 		// one big element first, then many small ones
 		{name: "amf0-big-string-then-props", dec: "amf0.any", cost: "amf0.any", build: func(n int) []byte {
